@@ -71,9 +71,11 @@ macro_rules! eb {
 }
 //@begin prop=C05 tier=quick secp=1 mem=24 timeout=2400 desc="all-explicit 1-input/2-output transaction with SYMBOLIC asset ids (all equal/unequal patterns) and the amount triple of the shard: Ok exactly when inputs equal outputs per asset, else BalanceCheckFailed" unsat_ok="balanced transaction accepted,unbalanced transaction rejected"
 eb!(explicit_balance_5_2_3, 5, 2, 3);
+eb!(explicit_balance_wrap, 1, 0xffff_ffff_ffff_ffff, 2);
+//@end
+//@begin prop=C05 tier=thorough secp=1 mem=24 timeout=2400 desc="all-explicit balance, further amount triples" unsat_ok="balanced transaction accepted,unbalanced transaction rejected"
 eb!(explicit_balance_3_2_2, 3, 2, 2);
 eb!(explicit_balance_max, 0xffff_ffff_ffff_ffff, 0x8000_0000_0000_0000, 0x7fff_ffff_ffff_ffff);
-eb!(explicit_balance_wrap, 1, 0xffff_ffff_ffff_ffff, 2);
 //@end
 
 fn zero_value_check(first_opcode: u8, admissible: bool) {
